@@ -183,7 +183,7 @@ def pairBad (l o : Pt × Pt) : Bool :=
 /-- `linestring_has_self_intersection` on finite coordinates -/
 def hasSelfIntersection (r : List Pt) : Bool :=
   let ls := (segs r).zipIdx
-  ls.any (fun (l, i) => ls.any (fun (o, j) => i != j && pairBad l o))
+  ls.any (fun li => ls.any (fun oj => li.2 != oj.2 && pairBad li.1 oj.1))
 
 /-- What the model does not compute itself. -/
 structure Oracle where
@@ -221,7 +221,7 @@ def visitLine (h : LnErr → m PUnit) (a b : XPt) : m PUnit := do
 def visitLineString (h : LsErr → m PUnit) (cs : List XPt) : m PUnit :=
   if cs.isEmpty then pure ⟨⟩ else do
     emit h (tooFew cs false) .tooFew
-    cs.zipIdx.forM (fun (c, i) => emit h (notFinite c) (.nonFinite i))
+    cs.zipIdx.forM (fun ci => emit h (notFinite ci.1) (.nonFinite ci.2))
 
 def roleOf (idx : Nat) : Role := if idx == 0 then .ext else .int (idx - 1)
 
@@ -231,24 +231,22 @@ def visitRing (o : Oracle) (h : PolyErr → m PUnit) (role : Role) (ring : XRing
     (if tooFew ring true then h (.tooFew role)
      else if selfInt o ring then h (.selfInt role)
      else pure ⟨⟩)
-    ring.zipIdx.forM (fun (c, i) => emit h (notFinite c) (.nonFinite role i))
+    ring.zipIdx.forM (fun ci => emit h (notFinite ci.1) (.nonFinite role ci.2))
 
 /-- the ring-versus-ring part of the Polygon visitor (finite coordinates) -/
 def visitRingPairs (o : Oracle) (h : PolyErr → m PUnit) (q : Poly) : m PUnit :=
-  q.ints.zipIdx.forM (fun (h1, i1) =>
-    if h1.isEmpty then pure ⟨⟩ else do
-      let im := o.rel (.polygon ⟨q.ext, []⟩) (.lineString h1)
-      emit h (!isContains im) (.notContained (.int i1))
-      emit h (im.bi == .one) (.onLine .ext (.int i1))
-      (q.ints.zipIdx.drop (i1 + 1)).forM (fun (h2, i2) => do
-        let im2 := o.rel (.polygon ⟨h1, []⟩) (.polygon ⟨h2, []⟩)
-        emit h (im2.ii == .two) (.onArea (.int i1) (.int i2))
-        emit h (im2.bb == .one) (.onLine (.int i1) (.int i2))))
+  q.ints.zipIdx.forM (fun hi =>
+    if hi.1.isEmpty then pure ⟨⟩ else do
+      emit h (!isContains (o.rel (.polygon ⟨q.ext, []⟩) (.lineString hi.1))) (.notContained (.int hi.2))
+      emit h ((o.rel (.polygon ⟨q.ext, []⟩) (.lineString hi.1)).bi == .one) (.onLine .ext (.int hi.2))
+      (q.ints.zipIdx.drop (hi.2 + 1)).forM (fun hj => do
+        emit h ((o.rel (.polygon ⟨hi.1, []⟩) (.polygon ⟨hj.1, []⟩)).ii == .two) (.onArea (.int hi.2) (.int hj.2))
+        emit h ((o.rel (.polygon ⟨hi.1, []⟩) (.polygon ⟨hj.1, []⟩)).bb == .one) (.onLine (.int hi.2) (.int hj.2))))
 
 /-- Polygon -/
 def visitPolygon (o : Oracle) (h : PolyErr → m PUnit) (p : XPoly) : m PUnit :=
   if p.ext.isEmpty then pure ⟨⟩ else do
-    p.rings.zipIdx.forM (fun (ring, idx) => visitRing o h (roleOf idx) ring)
+    p.rings.zipIdx.forM (fun ri => visitRing o h (roleOf ri.2) ri.1)
     -- `if has_non_finite_coord { return Ok(()) }`
     match p.toPoly? with
     | none => pure ⟨⟩
@@ -256,27 +254,26 @@ def visitPolygon (o : Oracle) (h : PolyErr → m PUnit) (p : XPoly) : m PUnit :=
 
 /-- MultiPoint -/
 def visitMultiPoint (h : Nat → m PUnit) (ps : List XPt) : m PUnit :=
-  ps.zipIdx.forM (fun (p, i) => visitPoint (fun _ => h i) p)
+  ps.zipIdx.forM (fun pi => visitPoint (fun _ => h pi.2) pi.1)
 
 /-- MultiLineString -/
 def visitMultiLineString (h : Nat → LsErr → m PUnit) (ls : List (List XPt)) : m PUnit :=
-  ls.zipIdx.forM (fun (l, i) => visitLineString (h i) l)
+  ls.zipIdx.forM (fun li => visitLineString (h li.2) li.1)
 
 /-- the element-versus-element part of the MultiPolygon visitor for one pair -/
 def visitMemberPair (o : Oracle) (h : MPolyErr → m PUnit) (p : XPoly) (i : Nat) (p2 : XPoly) (j : Nat) :
     m PUnit :=
   match p.toPoly?, p2.toPoly? with
   | some q, some q2 => do
-    let im := o.rel (.polygon q) (.polygon q2)
-    emit h (im.ii == .two) (.overlap i j)
-    emit h (im.bb == .one) (.touchLine i j)
+    emit h ((o.rel (.polygon q) (.polygon q2)).ii == .two) (.overlap i j)
+    emit h ((o.rel (.polygon q) (.polygon q2)).bb == .one) (.touchLine i j)
   | _, _ => pure ⟨⟩
 
 /-- MultiPolygon -/
 def visitMultiPolygon (o : Oracle) (h : MPolyErr → m PUnit) (ps : List XPoly) : m PUnit :=
-  ps.zipIdx.forM (fun (p, i) => do
-    visitPolygon o (fun e => h (.poly i e)) p
-    (ps.zipIdx.drop (i + 1)).forM (fun (p2, j) => visitMemberPair o h p i p2 j))
+  ps.zipIdx.forM (fun pi => do
+    visitPolygon o (fun e => h (.poly pi.2 e)) pi.1
+    (ps.zipIdx.drop (pi.2 + 1)).forM (fun pj => visitMemberPair o h pi.1 pi.2 pj.1 pj.2))
 
 /-- Rect (`min()` then `max()`) -/
 def visitRect (h : RcErr → m PUnit) (mn mx : XPt) : m PUnit := do
@@ -297,8 +294,7 @@ def visitTriangle (h : TrErr → m PUnit) (a b c : XPt) : m PUnit := do
   emit h (ceq a b) (.identical 0 1)
   emit h (ceq a c) (.identical 0 2)
   emit h (ceq b c) (.identical 1 2)
-  let identical := ceq a b || ceq a c || ceq b c
-  emit h (!identical && collinearX a b c) .collinear
+  emit h (!(ceq a b || ceq a c || ceq b c) && collinearX a b c) .collinear
 
 mutual
 /-- Geometry -/
@@ -344,24 +340,22 @@ def isValid (o : Oracle) (g : XGeom) : Bool :=
 def ringErrs (o : Oracle) (role : Role) (ring : XRing) : List PolyErr :=
   if ring.isEmpty then [] else
     (if tooFew ring true then [.tooFew role] else if selfInt o ring then [.selfInt role] else []) ++
-    ring.zipIdx.flatMap (fun (c, i) => if notFinite c then [PolyErr.nonFinite role i] else [])
+    ring.zipIdx.flatMap (fun ci => if notFinite ci.1 then [PolyErr.nonFinite role ci.2] else [])
 
 def holePairErrs (o : Oracle) (h1 : List Pt) (i1 : Nat) (h2 : List Pt) (i2 : Nat) : List PolyErr :=
-  let im2 := o.rel (.polygon ⟨h1, []⟩) (.polygon ⟨h2, []⟩)
-  (if im2.ii == .two then [PolyErr.onArea (.int i1) (.int i2)] else []) ++
-  (if im2.bb == .one then [PolyErr.onLine (.int i1) (.int i2)] else [])
+  (if (o.rel (.polygon ⟨h1, []⟩) (.polygon ⟨h2, []⟩)).ii == .two then [PolyErr.onArea (.int i1) (.int i2)] else []) ++
+  (if (o.rel (.polygon ⟨h1, []⟩) (.polygon ⟨h2, []⟩)).bb == .one then [PolyErr.onLine (.int i1) (.int i2)] else [])
 
 def ringPairErrs (o : Oracle) (q : Poly) : List PolyErr :=
-  q.ints.zipIdx.flatMap (fun (h1, i1) =>
-    if h1.isEmpty then [] else
-      let im := o.rel (.polygon ⟨q.ext, []⟩) (.lineString h1)
-      (if !isContains im then [PolyErr.notContained (.int i1)] else []) ++
-      (if im.bi == .one then [PolyErr.onLine .ext (.int i1)] else []) ++
-      (q.ints.zipIdx.drop (i1 + 1)).flatMap (fun (h2, i2) => holePairErrs o h1 i1 h2 i2))
+  q.ints.zipIdx.flatMap (fun hi =>
+    if hi.1.isEmpty then [] else
+      (if !isContains (o.rel (.polygon ⟨q.ext, []⟩) (.lineString hi.1)) then [PolyErr.notContained (.int hi.2)] else []) ++
+      (if (o.rel (.polygon ⟨q.ext, []⟩) (.lineString hi.1)).bi == .one then [PolyErr.onLine .ext (.int hi.2)] else []) ++
+      (q.ints.zipIdx.drop (hi.2 + 1)).flatMap (fun hj => holePairErrs o hi.1 hi.2 hj.1 hj.2))
 
 def polyErrs (o : Oracle) (p : XPoly) : List PolyErr :=
   if p.ext.isEmpty then [] else
-    p.rings.zipIdx.flatMap (fun (ring, idx) => ringErrs o (roleOf idx) ring) ++
+    p.rings.zipIdx.flatMap (fun ri => ringErrs o (roleOf ri.2) ri.1) ++
     (match p.toPoly? with
      | none => []
      | some q => ringPairErrs o q)
@@ -369,15 +363,14 @@ def polyErrs (o : Oracle) (p : XPoly) : List PolyErr :=
 def memberPairErrs (o : Oracle) (p : XPoly) (i : Nat) (p2 : XPoly) (j : Nat) : List MPolyErr :=
   match p.toPoly?, p2.toPoly? with
   | some q, some q2 =>
-    let im := o.rel (.polygon q) (.polygon q2)
-    (if im.ii == .two then [MPolyErr.overlap i j] else []) ++
-    (if im.bb == .one then [MPolyErr.touchLine i j] else [])
+    (if (o.rel (.polygon q) (.polygon q2)).ii == .two then [MPolyErr.overlap i j] else []) ++
+    (if (o.rel (.polygon q) (.polygon q2)).bb == .one then [MPolyErr.touchLine i j] else [])
   | _, _ => []
 
 def multiPolyErrs (o : Oracle) (ps : List XPoly) : List MPolyErr :=
-  ps.zipIdx.flatMap (fun (p, i) =>
-    (polyErrs o p).map (MPolyErr.poly i) ++
-    (ps.zipIdx.drop (i + 1)).flatMap (fun (p2, j) => memberPairErrs o p i p2 j))
+  ps.zipIdx.flatMap (fun pi =>
+    (polyErrs o pi.1).map (MPolyErr.poly pi.2) ++
+    (ps.zipIdx.drop (pi.2 + 1)).flatMap (fun pj => memberPairErrs o pi.1 pi.2 pj.1 pj.2))
 
 def lineErrs (a b : XPt) : List LnErr :=
   (if notFinite a then [LnErr.nonFinite 0] else []) ++ (if notFinite b then [LnErr.nonFinite 1] else []) ++
@@ -386,7 +379,7 @@ def lineErrs (a b : XPt) : List LnErr :=
 def lineStringErrs (cs : List XPt) : List LsErr :=
   if cs.isEmpty then [] else
     (if tooFew cs false then [LsErr.tooFew] else []) ++
-    cs.zipIdx.flatMap (fun (c, i) => if notFinite c then [LsErr.nonFinite i] else [])
+    cs.zipIdx.flatMap (fun ci => if notFinite ci.1 then [LsErr.nonFinite ci.2] else [])
 
 def rectErrs (mn mx : XPt) : List RcErr :=
   (if notFinite mn then [RcErr.nonFinite 0] else []) ++ (if notFinite mx then [RcErr.nonFinite 1] else [])
@@ -404,8 +397,8 @@ def geomErrs (o : Oracle) : XGeom → List GErr
   | .line a b => (lineErrs a b).map GErr.ln
   | .lineString cs => (lineStringErrs cs).map GErr.ls
   | .polygon p => (polyErrs o p).map GErr.pg
-  | .multiPoint ps => ps.zipIdx.flatMap (fun (p, i) => if notFinite p then [GErr.mpt i] else [])
-  | .multiLineString ls => ls.zipIdx.flatMap (fun (l, i) => (lineStringErrs l).map (GErr.mls i))
+  | .multiPoint ps => ps.zipIdx.flatMap (fun pi => if notFinite pi.1 then [GErr.mpt pi.2] else [])
+  | .multiLineString ls => ls.zipIdx.flatMap (fun li => (lineStringErrs li.1).map (GErr.mls li.2))
   | .multiPolygon ps => (multiPolyErrs o ps).map GErr.mpg
   | .rect mn mx => (rectErrs mn mx).map GErr.rc
   | .triangle a b c => (triangleErrs a b c).map GErr.tr
